@@ -630,7 +630,7 @@ func runC13(r *ev.Run) {
 	}
 	scripts := c13Scripts(r.Thorough())
 	r.Set("scripts_in_grammar", len(scripts))
-	// quick: the key scripts plus a seed-rotated 1/24 of the grammar at bound 2, two scripts unbounded (capped);
+	// quick: the key scripts plus a seed-rotated 1/48 of the grammar at bound 2, two scripts unbounded (capped);
 	// thorough: every script at bound 2, a seed-rotated 1/12 at bound 3, 16 scripts unbounded (capped)
 	isKey := func(sc c13Script) bool {
 		for _, k := range c13KeyScripts {
@@ -642,7 +642,7 @@ func runC13(r *ev.Run) {
 	}
 	var sel, deep, key []c13Script
 	for i, sc := range scripts {
-		if r.Thorough() || isKey(sc) || i%24 == int(r.Seed%24) {
+		if r.Thorough() || isKey(sc) || i%48 == int(r.Seed%48) {
 			sel = append(sel, sc)
 		}
 		if r.Thorough() && i%12 == int(r.Seed%12) {
@@ -716,7 +716,7 @@ func runC13(r *ev.Run) {
 	go func() { defer side.Done(); traces = c13TraceValidation(bin) }()
 	go func() { defer side.Done(); raceInfo = c13RacePass(r) }()
 	total := r.Remaining().Seconds()
-	runJobs(sel, bound, true, 0, int(total*ev.Pick(r, 0.35, 0.40)))
+	runJobs(sel, bound, true, 0, int(total*ev.Pick(r, 0.45, 0.40)))
 	if len(deep) > 0 {
 		runJobs(deep, 3, true, 0, int(total*0.30))
 	}
